@@ -133,6 +133,22 @@ func (e *vEnv) broadcast(m ConsensusPayload[vhash]) {
 	d := e.d
 	p := m.(*vPayload)
 	e.nBroadcast++
+	switch p.typ {
+	case PrepareRequestType:
+		vCover("event.broadcast.preparerequest")
+	case PrepareResponseType:
+		vCover("event.broadcast.prepareresponse")
+	case CommitType:
+		vCover("event.broadcast.commit")
+	case PreCommitType:
+		vCover("event.broadcast.precommit")
+	case ChangeViewType:
+		vCover("event.broadcast.changeview")
+	case RecoveryMessageType:
+		vCover("event.broadcast.recoverymessage")
+	case RecoveryRequestType:
+		vCover("event.broadcast.recoveryrequest")
+	}
 	e.log = append(e.log, vEvent{kind: evBroadcast, typ: p.typ, p: p, h: p.height, v: p.view})
 	if e.want("C13") {
 		vAssert("C13.silent", !d.Context.WatchOnly())
@@ -219,6 +235,7 @@ func (e *vEnv) processBlock(b Block[vhash]) error {
 	vb := b.(*vBlock)
 	bh := vb.Hash()
 	e.nProcessBlock++
+	vCover("event.processblock")
 	if e.want("C02") {
 		valid := vpValidCommits(d, bh)
 		kf := !d.isAntiMEVExtensionEnabled() && e.kf1()
@@ -256,6 +273,7 @@ func (e *vEnv) processPreBlock(b PreBlock[vhash]) error {
 	pb := b.(*vPreBlock)
 	ph := pb.hash()
 	e.nProcessPre++
+	vCover("event.processpreblock")
 	if e.want("C02") {
 		vAssert("C02.O2.certificate", vpValidPreCommits(d, ph) >= d.M())
 		req := vpProposal(d)
